@@ -58,6 +58,19 @@ Theorem C02hs13_liveness_partial_v13_hrr_clientauth :
 Proof. exact (live_check_sound 400 2 (cfg13 g13_v13_hrr_clientauth) live_v13_hrr_clientauth). Qed.
 Print Assumptions C02hs13_liveness_partial_v13_hrr_clientauth.
 
+(* dual-stack client (MinVersion 1.2, MaxVersion 1.3; the negotiation phase that precedes the state
+   machine - ClientHello repeated by its own loop - is part of the closure) against a dual-stack
+   server, and against a DTLS 1.3 only server that skips the cookie exchange *)
+Theorem C02hs13_liveness_partial_v13_dualc :
+  forall s, Reach (cfg13d g13_v13_dualc) s -> live_from 2 (cfg13d g13_v13_dualc) s = true.
+Proof. exact (live_check_sound 400 2 (cfg13d g13_v13_dualc) live_v13_dualc). Qed.
+Print Assumptions C02hs13_liveness_partial_v13_dualc.
+
+Theorem C02hs13_liveness_partial_v13_dualc_direct :
+  forall s, Reach (cfg13d g13_v13_dualc_direct) s -> live_from 2 (cfg13d g13_v13_dualc_direct) s = true.
+Proof. exact (live_check_sound 400 2 (cfg13d g13_v13_dualc_direct) live_v13_dualc_direct). Qed.
+Print Assumptions C02hs13_liveness_partial_v13_dualc_direct.
+
 (* the time the retransmission schedule needs: each reliable round waits for at most one timer
    expiry per side; the k-th consecutive expiry comes min(I*2^k, 60 s) after the previous one *)
 Theorem C02hs13_round_interval_bound :
